@@ -1138,19 +1138,61 @@ End Inherit.
 Lemma flat_map_nil {A B} (f : A -> list B) l : (forall x, f x = []) -> flat_map f l = [].
 Proof. intros H. induction l as [|a r IH]; simpl; auto. now rewrite H, IH. Qed.
 
-Lemma rebuild_no_map W st : rebuild W st [] = Some (with_cn st (cn st) (fc st)).
+Lemma with_cn_id st : with_cn st (cn st) (fc st) = st.
+Proof. destruct st; reflexivity. Qed.
+
+(* the rebuild moves nothing when every exposed key names one channel *)
+Lemma rebuild_go_noop W pan : NoDup (map fst pan) ->
+  forall todo s k, (forall e, In e todo -> In e pan) -> rebuild_go W pan todo s k = (s, k, Ok).
 Proof.
-  unfold rebuild.
-  assert (E : forall inp, exposed W st [] inp = []).
-  { intros inp. unfold exposed. apply flat_map_nil. intros n. apply flat_map_nil. intros ch. reflexivity. }
-  rewrite !E. reflexivity.
+  intros ND. induction todo as [|[key oc] rest IH]; intros s k Hin; [reflexivity|].
+  cbn [rebuild_go].
+  assert (IHr : rebuild_go W pan rest s k = (s, k, Ok)) by (apply IH; intros e He; apply Hin; now right).
+  destruct (s oc) as [|x r]; [exact IHr|].
+  assert (F : find (fun e => Nat.eqb (fst e) key) pan = Some (key, oc)).
+  { assert (Hp : In (key, oc) pan) by (apply Hin; now left). clear - ND Hp.
+    induction pan as [|[k1 c1] p IHp]; [destruct Hp|]. simpl in ND. inversion ND as [|? ? Hnin ND']; subst.
+    simpl. destruct (Nat.eqb k1 key) eqn:E.
+    - apply Nat.eqb_eq in E. subst k1. destruct Hp as [Hp|Hp]; [now inversion Hp|].
+      exfalso. apply Hnin. apply in_map_iff. exists (key, oc). auto.
+    - destruct Hp as [Hp|Hp]; [inversion Hp; subst; rewrite Nat.eqb_refl in E; discriminate|]. now apply IHp. }
+  rewrite F, Nat.eqb_refl. exact IHr.
 Qed.
 
-Lemma replace_wf_no_map_err W st comp old new st' e ph :
-  replace_wf W st [] comp old new = (st', RErr e ph) -> replace_core W st comp old new = (st', RErr e ph).
+Definition unique_keys (W : world) (st : state) (wm : list wentry) : Prop :=
+  NoDup (map fst (exposed W st wm true)) /\ NoDup (map fst (exposed W st wm false)).
+
+Lemma rebuild_noop W st wm : unique_keys W st wm -> rebuild W st wm = (st, Ok).
+Proof.
+  intros [N1 N2]. unfold rebuild.
+  rewrite (rebuild_go_noop W _ N1) by auto. rewrite (rebuild_go_noop W _ N2) by auto.
+  now rewrite with_cn_id.
+Qed.
+
+Lemma exposed_no_map W st inp : exposed W st [] inp = [].
+Proof. unfold exposed. apply flat_map_nil. intros n. apply flat_map_nil. intros ch. reflexivity. Qed.
+
+Lemma unique_keys_no_map W st : unique_keys W st [].
+Proof. unfold unique_keys. rewrite !exposed_no_map. split; constructor. Qed.
+
+(* Workflow.replace_child IS Composite.replace_child: whatever the latter raises the former raises at the
+   same graph, and a successful replacement is left as it is by the IO rebuild *)
+Lemma replace_wf_err W st wm comp old new st1 e ph :
+  replace_core W st comp old new = (st1, RErr e ph) -> replace_wf W st wm comp old new = (st1, RErr e ph).
+Proof. intros E. unfold replace_wf. now rewrite E. Qed.
+
+Lemma replace_wf_ok W st wm comp old new st1 :
+  replace_core W st comp old new = (st1, ROk) -> unique_keys W st1 wm ->
+  replace_wf W st wm comp old new = (st1, ROk).
+Proof. intros E U. unfold replace_wf. rewrite E, (rebuild_noop W st1 wm U). reflexivity. Qed.
+
+Lemma replace_wf_err_inv W st wm comp old new st' e ph :
+  replace_wf W st wm comp old new = (st', RErr e ph) -> ph <> PhRebuild ->
+  replace_core W st comp old new = (st', RErr e ph).
 Proof.
   unfold replace_wf. destruct (replace_core W st comp old new) as [st1 [|e1 ph1]]; auto.
-  rewrite rebuild_no_map. discriminate.
+  destruct (rebuild W st1 wm) as [st2 [|e2]]; [discriminate|].
+  intros E H. inversion E; subst. congruence.
 Qed.
 
 (* ---- flow derivation: restore on error ----------------------------------------------------------- *)
@@ -1833,14 +1875,15 @@ Proof.
   intros (H & _). specialize (H 5). vm_compute in H. discriminate.
 Qed.
 
-(* 9. Workflow.replace_child with an IO map exposing the connected n2.x: as "bx" the rebuild raises and the
-      swap-back recursion never ends; as "x" the rebuild copies n2.x onto itself and then disconnects it *)
+(* 9. Workflow.replace_child with an IO map exposing the connected n2.x (as "bx", or as "x"): since a33e34e the
+      rebuild finds the channel under its key, sees it is the same channel and moves nothing *)
 Definition s_wf_map : state :=
   init_state [(7, 2)] [] [] [(1, 0); (2, 0); (3, 0)] [] [1; 2; 3] [] 0 0 0.
-Lemma wf_map_refuted :
-  snd (replace_wf w_four s_wf_map [(2, 0, true, 13)] 0 3 4) = RErr RecErr PhRebuild /\
+Lemma wf_map_instance :
+  (let r := replace_wf w_four s_wf_map [(2, 0, true, 13)] 0 3 4 in
+   snd r = ROk /\ cn (fst r) 7 = [2] /\ kids (fst r) = [1; 2; 4]) /\
   (let r := replace_wf w_four s_wf_map [(2, 0, true, 0)] 0 3 4 in
-   snd r = ROk /\ cn s_wf_map 7 = [2] /\ cn (fst r) 7 = []).
+   snd r = ROk /\ cn (fst r) 7 = [2] /\ kids (fst r) = [1; 2; 4]).
 Proof. vm_compute. repeat split; reflexivity. Qed.
 
 (* non-vacuity of the partial theorems: instances that meet their guards and do fail *)
